@@ -360,6 +360,39 @@ def run_mux(term, items, bounds=False, prelude=None, share=False, two_stores=Non
     return {'chunks': chunks, 'bounds': log, 'dead': dead, 'raised': raised}
 
 
+def run_plain_tramp(term, items):
+    """the same operators on an ordinary observable whose source pushes ALL items from inside one action of the current-thread
+    scheduler (`rx.from_`, as every file reader of rxsci does): chunks [subscription, item 0.., completion] cut by a tap placed
+    right after the source"""
+    ops = Builder(mux=False).pipe(term)
+    cur = []
+    chunks = []
+    state = {'end': None}
+
+    def cut(*_a):
+        chunks.append(list(cur))
+        del cur[:]
+
+    def on_error(e):
+        cur.append({'x': type(e).__name__})
+        state['end'] = 'error'
+
+    def on_completed():
+        state['end'] = 'completed'
+    src = rx.from_([dec(it) for it in items]).pipe(rxops.do_action(on_next=cut, on_completed=cut))
+    raised = None
+    try:
+        src.pipe(*ops).subscribe(on_next=lambda x: cur.append({'i': enc(x)}), on_error=on_error, on_completed=on_completed)
+    except Exception as e:      # noqa
+        raised = type(e).__name__
+    # what follows the last cut belongs to the last event the source delivered (an item, or its completion); a pipeline that
+    # completed early never sees the rest
+    chunks.append(list(cur))
+    while len(chunks) < len(items) + 2:
+        chunks.append([])
+    return {'chunks': chunks, 'end': state['end'], 'raised': raised}
+
+
 def run_plain(term, items, prelude=None, share=False):
     """Real run of the same operators on an ordinary observable, item by item (with `prelude`: after an earlier
     subscription of the same observable object)"""
